@@ -11,7 +11,7 @@ class C09(E1Prop):
     design_ref = 'DESIGN.md §4 C09 (Engine E1)'
     oracle_name = 'c09'
     adversarial_share = 0.3
-    client_share = 0.25
+    client_share = 0.35
     nontrivial_tags = ['resent:insertJobs', 'resent:createUpdate', 'resent:commit', 'resent:insertGroups', 'resent:createBatch']
     level_text = ('Lean: Props/C09.lean. Oracle after every op: a re-sent createBatch / createUpdate / insertGroups / insertJobs / commit that was accepted '
                   'before changes no table and (create*) gets the same answer; update job-id and group-id ranges are contiguous, disjoint and in update '
@@ -23,7 +23,9 @@ class C09(E1Prop):
     level_note = ('Partial: the server is harness/minisql (semantics list in trusted_base), every transaction is one atomic step, histories are generated '
                   '(not exhaustive); the Lean model is tied to the code only as far as the compared answers and dumps show. '
                   'Known findings of the unchanged tree are listed in known_findings.json and printed as KNOWN-FINDING.')
-    extra_trusted = ['harness/batchdb/client.py: transport between the real hailtop.batch_client.aioclient and the real (undecorated) front-end '
+    extra_trusted = ['harness/aloop.py VLoop virtual clock for the retry back-off of gear.database in the real-client cases; '
+                     'harness/minisql/fakepool.py ambiguous commit = the commit takes effect, then error 2013 is raised to the service',
+                     'harness/batchdb/client.py: transport between the real hailtop.batch_client.aioclient and the real (undecorated) front-end '
                      'handlers that delivers marked requests twice; auth decorators and HTTP framing are bypassed']
 
     def nontrivial(self, r):
@@ -40,7 +42,7 @@ class C09(E1Prop):
 
     @staticmethod
     def key(c):
-        return json.dumps([c.get('subs'), c.get('dup')]) if c.get('kind') == 'client' else json.dumps(c['ops'])
+        return json.dumps([c.get('subs'), c.get('dup'), c.get('ambig')]) if c.get('kind') == 'client' else json.dumps(c['ops'])
 
     def run_case(self, c):
         if c.get('kind') != 'client':
@@ -60,7 +62,7 @@ class C09(E1Prop):
         if out and out[0].startswith('IMPL-EXC'):
             return out[0]
         r = self._get(c)
-        return None if r.failure is None else f'[{r.failure[1]}] real client, requests re-delivered per dup={c["dup"]}: {r.failure[2]}'
+        return None if r.failure is None else f'[{r.failure[1]}] real client, requests re-delivered per dup={c["dup"]}, ambiguous commits per ambig={c.get("ambig")}: {r.failure[2]}'
 
     def classify(self, c, out):
         if c.get('kind') != 'client':
@@ -72,7 +74,16 @@ class C09(E1Prop):
         if c.get('kind') != 'client':
             return super().shrink(c, fails)
         cur = dict(c)
-        if cur['dup'] != [1] and fails({**cur, 'dup': [1]}):
+        if cur.get('ambig') and fails({k: v for k, v in cur.items() if k != 'ambig'}):
+            cur.pop('ambig')
+        elif cur.get('ambig'):
+            for k in (1, 2, 3):
+                if cur['ambig'] != [k] and fails({**cur, 'ambig': [k]}):
+                    cur['ambig'] = [k]
+                    break
+        if cur['dup'] != [0] and fails({**cur, 'dup': [0]}):
+            cur['dup'] = [0]
+        elif cur['dup'] not in ([0], [1]) and fails({**cur, 'dup': [1]}):
             cur['dup'] = [1]
         changed = True
         while changed:
